@@ -1533,7 +1533,25 @@ class TreeSim(WorldBase):
             return res
         if not isinstance(zr, Payload):
             return res
-        if act == "assign":
+        if act == "elsewhere":
+            # the offered reference stays untouched; the body writes at another coordinate of the row being populated
+            # (a second tile, a neighbour): the loop's own tidying of the untouched element must not hit that one
+            c2, zf = action["c2"], info["zf"]
+            if c2 != c and isinstance(c, int) and all(isinstance(x, int) for x in zf.coords) and t.child is None \
+                    and (zf.getOwner() is None or zf.getOwner().getFormat() == "C"):
+                p2 = info["zpre"] + (c2,)
+                try:
+                    box = zf.getPayloadRef(c2)
+                except Exception as e:
+                    return self.unexpected("C05", "populate", e)
+                if isinstance(box, Payload):
+                    self._write(zsl, p2, box, "set", action["v"])
+                    info.setdefault("tainted", set()).add(ob._k(c2))
+                    info["z_before"][ob._k(c2)] = ["v", ob.enc_value(action["v"])]
+                    self.probe("populate_body_inserted_elsewhere_in_the_row")
+            if ob._k(c) in info["z_before"]:
+                self.probe("populate_left_existing_alone")
+        elif act == "assign":
             self._write(zsl, point, zr, "set", action["v"])
             info["written"].add(c)
         elif act == "acc":
@@ -2461,6 +2479,12 @@ class TreeSim(WorldBase):
                 return {"act": "accsrc"}
             if r < 0.72:
                 return {"act": "zero"}
+            if r < 0.80 and self.prop == "C05":
+                # the body leaves the offered reference alone and inserts at another coordinate of the same row
+                sh = self.slots[t.zslot].shape
+                k = len(t.info["zpre"])
+                if k < len(sh) and isinstance(sh[k], int) and sh[k] > 1:
+                    return {"act": "elsewhere", "c2": g.randrange(sh[k]), "v": self.nextval()}
             return {"act": "leave"}
         if t.kind == "coishaperef":
             r = g.random()
